@@ -2,6 +2,7 @@
 import copy
 import json
 import random
+import re
 
 from . import gen
 
@@ -15,6 +16,8 @@ NASTY = [
     "$t(a, {\"count\": \"{{ x }} {{ y }}\"})", "$t(a, {\"count\": true})", "$t(a, {\"count\": null})", "$t(a, {\"count\": 1e999})",
     "$t(a, {\"count\": -1})", "$t(a, {\"count\": 99999999999999999999})", "$t(a, {\"count\": 0.5})", "$t(a, {\"count\": 5})", "$t(a, {\"count\": \"5\"})",
     "<>x</>", "< >x</ >", "<é>x</é>", "<b>x</b", "<b>x<b>y</b>", "<b", ">", "<<b>>x<</b>>", "</b>x<b>", "<b/>", "<b>x</B>", "<1>x</1>", "<fn>x</fn>",
+    "$t(a, {\"x\": \"ééé\"})", "$t(a, {\"x\": \"€€\"}) tail", "$t(a, {\"é\": \"日本語\"})é", "$t(a, { \"x\" : \"\U0001F600\" } )", "$t(a, {\"x\": \"<b>é</b>{{ é }}\"})",
+    "$t(aé, {\"x\": 1})", "$t(é.é)", "$t(é:é)", "{{ x, number(grouping_strategy: é) }}", "{{ x, datetime(é: é; é) }}", "<bé>x</bé>", "é<b>é</b>é{{ x }}é$t(a)é",
     "<b>$t(a)</b>", "$t(a)<b>$t(a)</b>", "<b>{{ x }}</b>{{ x, number }}", "\u0000", "퟿", "\U0010ffff", "á́́",
 ]
 
@@ -84,7 +87,37 @@ def set_at(plain, path, v):
 TOKENS = ["{{", "}}", "<", ">", "</", "$t(", ")", ",", "{", "}", "\"", "'", "\\", ":", ";", "(", "|", "..", "=", "_", "/", " ", "\t", " ", " ", "é", "\U0001F600", "‍"]
 
 
+WIDE = ["é", "€", "ß", "日", "\U0001F600", "\u00a0", "\u2003", "e\u0301", "\u200d", "ǆ", "İ"]
+_SYNTAX = ["}}", "{{", "}", "{", ")", "(", ">", "<", "/", ",", ":", ";", "\"", "$t(", "_", "|", ".."]
+
+
+def widen(s, rng):
+    """Multi-byte characters next to (and instead of the neighbours of) the syntactic tokens of a value: the inputs on which a
+    character index and a byte offset differ."""
+    if not s:
+        return gen.pick(rng, WIDE)
+    out = s
+    for _ in range(rng.randint(1, 4)):
+        tok = gen.pick(rng, _SYNTAX)
+        hits = [m.start() for m in re.finditer(re.escape(tok), out)]
+        w = gen.pick(rng, WIDE) * rng.randint(1, 3)
+        if hits and rng.random() < 0.75:
+            h = gen.pick(rng, hits)
+            pos = h if rng.random() < 0.6 else h + len(tok)
+            out = out[:pos] + w + out[pos:]
+        else:
+            chars = list(out)
+            i = rng.randrange(len(chars))
+            if chars[i].isalnum() or chars[i] == " ":
+                chars[i] = w
+            out = "".join(chars)
+    return out
+
+
 def mutate_string(s, rng):
+    r = rng.random()
+    if r < 0.12:
+        return widen(s if rng.random() < 0.6 else gen.pick(rng, NASTY), rng)
     r = rng.random()
     if r < 0.2:
         return gen.pick(rng, NASTY)
@@ -158,6 +191,8 @@ def mutate_plain(plain, rng):
             "$t(%s)" % me, "$t(%s) $t(%s)" % (tgt, me), "$t(%s, {\"count\": %s})" % (tgt, gen.pick(rng, ["5", "-5", "300", "1.5", "\"{{ n }}\"", "true", "\"x\"", "1e40"])),
             "$t(%s, {\"x\": \"$t(%s)\"})" % (tgt, me), [["$t(%s)" % tgt, 0], ["$t(%s, {\"count\": 3})" % me, "_"]],
             "$t(%s.%s)" % (tgt, tgt), "$t(ns:%s)" % tgt, "$t(%s, {\"count\": \"{{ a }}{{ b }}\"})" % tgt,
+            "$t(%s, %s)" % (tgt, json.dumps({gen.pick(rng, ["x", "count", "é", " x "]): widen(gen.pick(rng, ["v", "{{ n }}", "<b>y</b>", ""]), rng)}, ensure_ascii=False)),
+            widen("$t(%s, {\"x\": \"v\"})" % tgt, rng),
         ]))
     return plain
 
